@@ -185,7 +185,9 @@ def observe(ds):
 
 class C13(Prop):
     id = "C13"
-    theorems = []
+    theorems = ["inv_init", "inv_step_partial", "inv_step_of_not_setVar", "inv_run", "inv_reachable",
+                "inv_reachable_renameFree", "reject_restores", "rename_visible", "relabel_visible",
+                "inv_step_counterexample"]
     rule = ("histories of 1-12 Dataset mutations from an empty dataset: ds[k] = array (new / replacing, fewer / more / other "
             "dimensions, 20% with labels mismatching an existing axis on some dimension), del ds[k], axis renames through "
             "the dataset or through a variable, ds.dims = ..., ds.axes[d][i] = label, set_axis, ds.axes[d] = Axis (by name "
